@@ -38,9 +38,8 @@ def run(repo: Repo, tier: str, res: CheckResult, seed: int = 0) -> None:
     mode_trail_presence(repo, res)
     facade_wrapper(repo, res)
     input_value_binding(repo, res)
-    if tier == "thorough":
-        from .. import genprog
-        genprog.c05_checks(repo, tier, res, seed)
+    from .. import genprog
+    genprog.c05_checks(repo, tier, res, seed)
     res.assumptions = list(ASSUMPTIONS)
 
 
@@ -113,6 +112,14 @@ def trail_pairing(repo: Repo, R: Resolver, res: CheckResult) -> None:
                                             and c.func.attr == "append" and norm(c.func.value) == "errors"
                                             and any(isinstance(x, ast.Name) and x.id == hv for x in ast.walk(c)))
                                 res.evaluated(f"collect:{m.rel}:{qual}:{h.lineno}:{len(path)}", True)
+                                if path[-1][0] == "continue":
+                                    later = _later_applications(R, fctx, m, loop, tr)
+                                    if later:
+                                        res.add(Finding("C05", "ALL.skips-independent-leaf", m.rel, qual,
+                                                        f"continue after collecting the error of {norm(call)}; skipped: {later[0]}",
+                                                        f"after the error of `{norm(call)}` is collected the iteration is abandoned, so "
+                                                        f"`{later[0]}` is never applied to the same item: an independently invalid leaf "
+                                                        "under it is missing from the ALL-mode report", h.lineno))
                                 if colls != 1 or path[-1][0] not in ("fall", "continue"):
                                     res.add(Finding("C05", "ALL.collect-exactly-once", m.rel, qual,
                                                     f"except {norm(h.type) if h.type else ''}: collects x{colls}, ends with {path[-1][0]}",
@@ -140,6 +147,24 @@ def trail_pairing(repo: Repo, R: Resolver, res: CheckResult) -> None:
                 _epilogue_rule(m, fn, qual, res)
     res.count("TRAIL.annotating-functions", n_funcs, 10)
     res.count("TRAIL.element-applications", n_apply, 14)
+
+
+def _later_applications(R: Resolver, fctx, m: ModuleInfo, loop: ast.For, tr: ast.Try) -> List[str]:
+    """provided-loader applications that follow `tr` inside one iteration of `loop`"""
+    out: List[str] = []
+    node: ast.AST = tr
+    while node is not loop and node is not None:
+        p = m.parent(node)
+        for attr in ("body", "orelse", "finalbody"):
+            blk = getattr(p, attr, None)
+            if isinstance(blk, list) and any(node is b for b in blk):
+                idx = next(i for i, b in enumerate(blk) if b is node)
+                for st in blk[idx + 1:]:
+                    for c in ast.walk(st):
+                        if isinstance(c, ast.Call) and _is_provided_call(R, c, fctx):
+                            out.append(norm(c))
+        node = p
+    return out
 
 
 def _in_body(tr: ast.Try, node: ast.AST, m: ModuleInfo) -> bool:
